@@ -86,6 +86,30 @@ def relation_traces(ctx, T):
                          "f": [v or [0, 0] for v in mf], "J": mj or [0, 0],
                          "points": {"x": float(x), "h": h, "f": [float(v) for v in f], "jacobian": float(jv[0]), "argument": repr(arg)[:80]}})
             ctx.count({"t": label, "x": float(x), "how": how}, True)
+    # instance reuse: built and used with a neighbouring setting, then re-parameterised (4 styles) to this one: forward still increasing
+    nchain = 0
+    for label, prev, cur, style in tc.reuse_chains(tc.catalogue(T)):
+        try:
+            t = prev[1].fresh()
+            tc.quiet(t.jacobian, prev[2].copy())
+            tc.quiet(t.forward, prev[2].copy())
+            tc.reparam(t, cur[1], style)
+            xs = np.sort(cur[2])
+            y = tc.quiet(t.forward, xs.copy())
+            jv = tc.quiet(t.jacobian, xs.copy())
+            jf = tc.quiet(cur[1].fresh().jacobian, xs.copy())
+        except Exception as e:
+            ctx.violation("%s:exception" % label.split("(")[0], "%s re-parameterised from %s raised %r" % (label, prev[0], e), {"transform": label})
+            continue
+        nchain += 1
+        lab = "%s<-%s@%s" % (label, prev[0], tc.REPARAM_STYLES[style])
+        my = [tc.mant(v) for v in y]
+        recs.append({"kind": "mono", "label": lab, "bad": any(v is None for v in my), "y": [v or [0, 0] for v in my],
+                     "points": {"x": [float(v) for v in xs], "forward": [float(v) for v in y]}})
+        if not np.allclose(np.ravel(jv), np.ravel(jf), rtol=1e-10, atol=0, equal_nan=True):
+            ctx.violation("%s:jacobian-after-reuse" % label.split("(")[0], "%s: the Jacobian of a re-parameterised instance differs from that of a fresh one" % lab,
+                          {"transform": lab})
+    ctx.part("instance_reuse", chains=nchain, styles=tc.REPARAM_STYLES)
     nrej, ninc = tc.validate(ctx, recs, "C02")
     ctx.traces += len(recs)
     njac = sum(1 for r in recs if r["kind"] == "jac")
